@@ -102,7 +102,7 @@ def check(tier, seed, replay=None):
             only = rnd.random() < 0.3
             data = clean_stream(rnd, rnd.choice([1, 2, 3, 5, 8])) if rnd.random() < 0.7 else RL.small_stream(rnd, 80, noise=0.3)
             recipes.append({"kind": "same", "policy": policy, "mode": mode, "onlyObj": only, "stdin": hexs(data),
-                            "delivery": rnd.choice(["chunks", "chunks", "whole", "file"]), "chunks": [rnd.choice([1, 2, 3, 5, 8, 13, 64]) for _ in range(7)]})
+                            "delivery": rnd.choice(["chunks", "chunks", "whole", "file", "fifo"]), "chunks": [rnd.choice([1, 2, 3, 5, 8, 13, 64]) for _ in range(7)]})
         for i in range(3 if quick else 60):
             recipes.append({"kind": "same", "policy": "ignore", "mode": rnd.choice(["plain", "select"]), "onlyObj": False, "stdin": hexs(big_stream(rnd)),
                             "delivery": rnd.choice(["file", "file", "chunks"]), "chunks": [rnd.choice([4096, 8192, 8191, 100, 1])], "big": True})
@@ -150,6 +150,9 @@ def check(tier, seed, replay=None):
                 add(ri, {"argv": argv, "stdin": rc["stdin"], "chunks": rc["chunks"]})
             elif rc["delivery"] == "whole":
                 add(ri, {"argv": argv, "stdin": rc["stdin"], "chunks": [1 << 20]})
+            elif rc["delivery"] == "fifo":
+                # a named pipe as the file operand: its size says nothing about what it will deliver
+                add(ri, {"argv": ["@FIFO"] + argv, "stdin": "", "fifo": {"prefix": rc["stdin"], "cycle": "", "cap": 1 << 22}})
             else:
                 add(ri, {"argv": ["@FILE0"] + argv, "stdin": "", "files": [rc["stdin"]]})
         elif k == "files":
@@ -166,6 +169,7 @@ def check(tier, seed, replay=None):
             add(ri, {"argv": ["@DIR/top"] + argv, "stdin": "", "files": rc["parts"], "names": rc["names"], "links": rc["links"]})
             for j in rc["inside"]:
                 add(ri, {"argv": ["@FILE0"] + argv, "stdin": "", "files": [rc["parts"][j]]})
+            add(ri, {"argv": ["@DIR/top", "--select=&index =i"], "stdin": "", "files": rc["parts"], "names": rc["names"], "links": rc["links"]})
         elif k == "ctx":
             argv = (CTX_SELECT_WRAPPED if rc.get("wrapped") else CTX_SELECT) + (["--only-objects-and-arrays"] if rc["onlyObj"] else [])
             if rc.get("wrapped") and ri % 2 == 0:
@@ -189,7 +193,7 @@ def check(tier, seed, replay=None):
                 rec["exact"] = False
             rec.update({"res": o[1]["res"], "out": list(bytes.fromhex(o[1]["out"])), "err": list(bytes.fromhex(o[1]["err"])),
                         "bres": o[0]["res"], "base": list(bytes.fromhex(o[0]["out"])), "berr": list(bytes.fromhex(o[0]["err"]))})
-            if rc["delivery"] == "file" and rc["policy"] in ("stderr", "stdout"):
+            if rc["delivery"] in ("file", "fifo") and rc["policy"] in ("stderr", "stdout"):
                 rec["err"], rec["berr"] = [], []       # error texts name the file: compare the row stream only
                 if rc["policy"] == "stdout":
                     rec["out"] = rec["base"] = []
@@ -200,7 +204,14 @@ def check(tier, seed, replay=None):
         elif k == "dir":
             rec = RL.base_record("dir", "ignore", "plain", False, None, b"")
             rec["exact"] = False
-            rec.update({"res": o[0]["res"], "out": list(bytes.fromhex(o[0]["out"])), "parts": [list(bytes.fromhex(x["out"])) for x in o[1:]]})
+            idx = []
+            for ln in bytes.fromhex(o[-1]["out"]).decode("utf-8", "replace").splitlines():
+                try:
+                    idx.append(int(json.loads(ln).get("i", -1)))
+                except Exception:
+                    idx.append(-1)
+            rec.update({"res": o[0]["res"], "out": list(bytes.fromhex(o[0]["out"])), "parts": [list(bytes.fromhex(x["out"])) for x in o[1:-1]],
+                        "idx": idx, "idxres": o[-1]["res"]})
         else:
             rec = RL.base_record("ctx", "ignore", "ctx", rc["onlyObj"], None, b"")
             rec["exact"] = False
